@@ -36,7 +36,8 @@ func init() {
 			"duration limits; every single and every ordered pair of " + strconv.Itoa(len(c15HostilePieces)) + " hostile string pieces as []string, set, map[string]string and map[string][]string. " +
 			"Seeded cases draw one of 8 families: scalar round-trip (33 types), integral slices (canonical, decorated literals with base prefixes/'_'/whitespace, out-of-range elements), " +
 			"string collections of hostile strings (flag helper String() text and the harness's own formatter; dedicated parser, parse.String and flag helper Set), typed slices via parse.String, typed maps via parse.Map, " +
-			"integer / float+complex / duration range probes in scalar, slice-element, map-value and map-key position. " +
+			"integer / float+complex / duration range probes in scalar, slice-element, map-value and map-key position (map positions both Go-quoted and, when the literal is made of digits, letters, '_', '.', '+', '-' only, as the unquoted word numbers are written as). " +
+			"The decorated in-range integer literals (base prefixes, '_', no whitespace) are also given as the unquoted values of a map[string]T (keys Go-quoted) to parse.Map / parse.String and must come back with their exact values. " +
 			"A case is non-trivial when its value is a collection with >=1 element, a scalar other than the zero value, or a literal probe; distinct_nontrivial hashes (family, type, input text) for seeded cases and counts corpus entries (distinct by construction). " +
 			"In the thorough tier only signatures in a fixed 1/16 slice of the hash space are hashed (exact distinct count within the slice; counter nontrivial_cases has the total).",
 		Assumptions: []string{
@@ -44,6 +45,7 @@ func init() {
 			"float range: a decimal literal is outside the range iff its exact magnitude is >= max+ulp/2 (the round-to-nearest-even overflow threshold); the canonical text of MaxFloat32 (3.4028235e+38) is larger than MaxFloat32 and must parse",
 			"canonical text of []T for non-string, non-integer T (no flag helper prints it) is taken to be the comma-joined canonical scalars, as the integral-slice helpers print",
 			"round-trips of map[K]V other than map[string]string (no flag helper prints them) and the value returned for in-range non-canonical scalar literals are recorded, not judged; out-of-range literals are judged in every position",
+			"the integer values of a map[string]T are integer elements in the statement's sense: written unquoted (Go quoting is for strings) with base prefixes and digit separators they must be accepted with their exact value; whitespace around them and decorated map keys are not judged",
 			"texts that are not the canonical form of any value (duplicate set members / map keys, string literals Go cannot unquote) are outside the statement: acceptance is recorded in observed_sets.noncanonical_accepted, not judged",
 			"map texts are lists of independent entries: what parse.Map / StringStringSliceMap return for a list must be the union of what they return for each entry alone (and an error iff some entry fails alone); the meaning of an entry without value text is whatever the code gives it alone",
 			"which literal spells a map key must not matter (integers accept base prefixes): a list that names one key value twice must have the same outcome whether the second mention repeats the spelling or uses another spelling of the same value; what that outcome is (today: an error) is not judged",
@@ -52,8 +54,8 @@ func init() {
 		},
 		MinDistinct: map[string]int{"quick": 2500000, "thorough": 2000000},
 		MinCounters: map[string]map[string]int64{
-			"quick":    {"map_key_spellings_checked": 30000, "map_entry_lists_checked": 100000, "float32_bit_patterns_roundtripped": 4000000, "comparisons": 5000000, "range_probes_rejected": 2000000, "decorated_literals_accepted": 2000000, "hostile_strings_roundtripped": 5000000},
-			"thorough": {"float32_bit_patterns_roundtripped": 4294967296, "comparisons": 60000000, "range_probes_rejected": 24000000, "decorated_literals_accepted": 24000000, "hostile_strings_roundtripped": 60000000},
+			"quick":    {"range_probes_as_unquoted_map_elements": 400000, "decorated_literals_accepted_as_map_values": 1000000, "map_key_spellings_checked": 30000, "map_entry_lists_checked": 100000, "float32_bit_patterns_roundtripped": 4000000, "comparisons": 5000000, "range_probes_rejected": 2000000, "decorated_literals_accepted": 2000000, "hostile_strings_roundtripped": 5000000},
+			"thorough": {"range_probes_as_unquoted_map_elements": 400000, "decorated_literals_accepted_as_map_values": 1000000, "float32_bit_patterns_roundtripped": 4294967296, "comparisons": 60000000, "range_probes_rejected": 24000000, "decorated_literals_accepted": 24000000, "hostile_strings_roundtripped": 60000000},
 		},
 		Plan: func(tier string) fw.Plan {
 			if tier == "thorough" {
@@ -335,6 +337,46 @@ func (e *c15Eval) intSliceDecorated(r *fw.Rand, ops c15IntOps, vals []*big.Int) 
 					e.setAdd("string_path_padded_int_elements_not_accepted", typ+" "+strconv.Quote(padded))
 				}
 			}
+		}
+	}
+	if ops.stringOK {
+		// the same integer elements as the values of a map[string]T: strings Go-quoted, numbers as they are
+		// written. Base prefixes and digit separators are judged, whitespace is not used (see above).
+		mt := reflect.MapOf(reflect.TypeOf(""), ops.elem)
+		wantM := reflect.MakeMap(mt)
+		// (at most 6 entries, taken from a random offset of the list: the splitter's work is per entry)
+		n, off := len(vals), 0
+		if n > 6 {
+			n, off = 6, r.Intn(len(vals)-5)
+		}
+		ents := make([]string, n)
+		for j := range ents {
+			i := off + j
+			k := "k" + strconv.Itoa(i)
+			ents[j] = strconv.Quote(k) + ":" + bare[i]
+			wantM.SetMapIndex(reflect.ValueOf(k), want.Index(i))
+		}
+		mtext := strings.Join(ents, ",")
+		var got reflect.Value
+		var err error
+		entry := "Map"
+		if r.Bool() {
+			got, err = parse.Map(mtext, mt)
+		} else {
+			entry = "String"
+			got, err = c15ParseString(mtext, mt)
+		}
+		e.setAdd("entry_points", entry)
+		wit := map[string]any{"entry": entry, "type": mt.String(), "text": mtext, "want": c15Show(wantM)}
+		switch {
+		case err != nil:
+			wit["error"] = err.Error()
+			e.fail("literal-rejected:"+entry+":"+mt.String()+":unquoted-value", fmt.Sprintf("%s(%s, %s) returned error %q; every value is an in-range Go integer literal (values %s)", entry, strconv.Quote(c15Clip(mtext)), mt, err.Error(), c15Clip(c15JoinDec(vals[off:off+n]))), wit)
+		case !got.IsValid() || got.Type() != mt || !c15Equal(wantM, got):
+			wit["got"] = c15Show(got)
+			e.fail("literal-mismatch:"+entry+":"+mt.String()+":unquoted-value", fmt.Sprintf("%s(%s, %s) = %s, want %s", entry, strconv.Quote(c15Clip(mtext)), mt, c15Show(got), c15Show(wantM)), wit)
+		default:
+			e.count("decorated_literals_accepted_as_map_values", int64(n))
 		}
 	}
 	for f := range forms {
@@ -796,6 +838,45 @@ func (e *c15Eval) probeContexts(r *fw.Rand, s c15Scalar, lit, exact string) {
 	text = strconv.Quote(lit) + `:"v"`
 	got, err = parse.Map(text, kt)
 	e.wantReject("Map", kt.String(), text, lit, exact, got, err)
+	// the same two positions with the number written as numbers are written (Go quoting is for strings): a bare
+	// word between the separators. Only for literals made of characters that cannot be mistaken for syntax.
+	if c15BareWord(lit) {
+		text = `"k":` + lit
+		switch r.Intn(3) {
+		case 0:
+			text = `"a":` + c15Canon(a) + "," + text
+		case 1:
+			text += `,"z":` + c15Canon(b)
+		}
+		if r.Bool() {
+			got, err = parse.Map(text, mt)
+			e.wantReject("Map", mt.String()+":unquoted-literal", text, lit, exact, got, err)
+		} else {
+			got, err = c15ParseString(text, mt)
+			e.wantReject("String", mt.String()+":unquoted-literal", text, lit, exact, got, err)
+		}
+		text = lit + `:"v"`
+		got, err = parse.Map(text, kt)
+		e.wantReject("Map", kt.String()+":unquoted-literal", text, lit, exact, got, err)
+		e.count("range_probes_as_unquoted_map_elements", 2)
+	}
+}
+
+// c15BareWord: the literal consists of digits, ASCII letters, '_', '.', '+' and '-' only (every integer literal
+// form with digit separators, every decimal / hexadecimal float literal), and is not empty.
+func c15BareWord(lit string) bool {
+	if lit == "" {
+		return false
+	}
+	for i := 0; i < len(lit); i++ {
+		c := lit[i]
+		switch {
+		case c >= '0' && c <= '9', c >= 'a' && c <= 'z', c >= 'A' && c <= 'Z', c == '_', c == '.', c == '+', c == '-':
+		default:
+			return false
+		}
+	}
+	return true
 }
 
 // intProbe: an out-of-range integer literal for an integer scalar type.
